@@ -9,7 +9,7 @@ CLAIMS = {
         'text': 'Decides the structural clauses of C05 for all inputs: ids are handed out once on every path of '
                 'from_opchains; no chain coefficient is dropped between the chain list and an edge (would have '
                 'reported F1); MPO.from_opgraph uses one layer ordering for labels, node map, columns and rows; '
-                'OpChain.padded length algebra; a pending coefficient is absorbed exactly once, through the edges entering the end node; the bond index recorded in nid_map is the position in the layer list.  Does not decide operator equality of the compiled graph.',
+                'OpChain.padded length algebra; a pending coefficient is absorbed exactly once, through the edges entering the end node; the bond index recorded in nid_map is the position in the layer list and the map is recorded by enumerating the new layer; the half-chain list and its coefficient list are built in lockstep; coefficient values steer the structure only through the two documented tests.  Does not decide operator equality of the compiled graph.',
         'design_ref': 'DESIGN.md 4.2, 5 (C05)',
         'note': TRUST + '; undecided: correctness of repartition + vertex cover as an algorithm',
     },
@@ -30,7 +30,7 @@ CLAIMS = {
                 'molecular constructions is fresh when handed to a constructor (reported F2, invisible below L=5), that '
                 'the creation / export / registration / lookup tables of the 2 x 12 node families agree, that every '
                 'non-raising path of the term functions adds exactly one edge carrying the coefficient, and that both '
-                'coefficient tensors reach both build paths; every key of a node family lies in the range created for it, for all L (Fourier-Motzkin over the loop nests, L//2 as a symbol); skip guards agree between creation and wiring; every explicit edge conserves charge and carries the Jordan-Wigner string its position requires; the two halves of the gauge transform are mirror images with conjugation.  Operator equality of the two paths is not decided.',
+                'coefficient tensors reach both build paths; every key of a node family lies in the range created for it, for all L (Fourier-Motzkin over the loop nests, L//2 as a symbol); skip guards agree between creation and wiring; every explicit edge conserves charge and carries the Jordan-Wigner string its position requires; the two halves of the gauge transform are mirror images with conjugation and visit every spectator orbital; a len()-based id allocator is accepted only while no constructor of the family leaves a gap in the id range.  Operator equality of the two paths is not decided.',
         'design_ref': 'DESIGN.md 4.2, 4.6, 5 (C07)',
         'note': TRUST + '; the get() rule trusts the naming convention a_dag~C, a_ann~A',
     },
@@ -72,7 +72,7 @@ CLAIMS = {
                 'the suite never takes - the output sizes are mutually consistent (len(alpha) = len(beta)+1 = V.shape[1], '
                 'H square of order V.shape[1]) for all numiter >= 1 and n >= 1; every index/slice is proved in bounds; every local is '
                 'definitely assigned on every path (numiter = 1 leaves the iteration loop empty); the basis is stored complex and '
-                'starts with the normalised start vector.  The Krylov relations themselves are not decided.',
+                'starts with the normalised start vector; a coefficient that was subtracted from the residual is never overwritten.  The Krylov relations themselves are not decided.',
         'design_ref': 'DESIGN.md 4.7, 5 (C14)',
         'note': TRUST + '; assumes the callback maps a vector to a vector of the same length',
     },
@@ -113,7 +113,7 @@ CLAIMS = {
                 'domain), every bond is re-factorised exactly once in order with matching tensor / label slots, the '
                 'quantum numbers handed to the block QR are those of the merged legs, and on every path the returned '
                 'factor is >= 0 and factor x (scale applied to the boundary tensor) equals the trailing 1x1 factor - so '
-                'the sign-flip branch no test reaches is covered.  Isometry and numerical equality are not decided.',
+                'the sign-flip branch no test reaches is covered; every returning path of orthonormalize runs through the sweep and its boundary factorisation (must-pass-through).  Isometry and numerical equality are not decided.',
         'design_ref': 'DESIGN.md 4.3, 4.4, 4.2, 5 (C01)',
         'note': TRUST + '; assumes the QR contract Q@R == M (C11) and that the trailing factor is real',
     },
@@ -154,18 +154,20 @@ CLAIMS = {
                 'from_vector stored Python lists, which broke every later operation of a history); every bond-changing '
                 'tensor store is paired with the label store of the same bond from the same factorisation; charges handed to '
                 'the block QR / SVD and the sign of every stored label agree with the sparsity rule of the object; labels of '
-                'products and sums are ordered like the merged legs / blocks.  The induction over histories additionally '
+                'products and sums are ordered like the merged legs / blocks; new objects own their charge vectors; the constructors '
+                'mask every site with the labels of that site (no value carried from site to site).  The induction over histories additionally '
                 'relies on the per-operation runtime asserts; numerical vanishing of blocks is not decided.',
         'design_ref': 'DESIGN.md 4.8, 4.3, 4.4, 5 (C02)',
         'note': TRUST + '; class invariant (X.qd ndarray, X.qD list of ndarray) used for loads is what the stores establish',
     },
     'C03': {
-        'technique': 'static analysis: leg-domain evaluation of product / merge / split code, AST layout rules for block sums and dense conversions',
+        'technique': 'static analysis: leg-domain evaluation of product / merge / split code, AST layout rules for block sums and dense conversions, value-taint linearity rule, aliasing / dtype rules',
         'text': 'Decides the index-wiring part of the homomorphism laws: which legs are contracted and how bond legs are '
                 'grouped in apply / compose / merge / split, block layout and alpha placement of sums in both the L == 1 and '
                 'L > 1 branches, site-major ordering of every dense conversion, total singular-value exponent 1 in all '
-                'three split modes.  Dense equality up to rounding, the sparse as_matrix path and from_vector numerics are '
-                'not decided.',
+                'three split modes; boundary labels and storage dtype of sums, independence of the site data of constructed '
+                'objects, and (multi)linearity: conversions and arithmetic never inspect tensor entries (value taint).  Dense '
+                'equality up to rounding, the index arithmetic of the sparse as_matrix path and from_vector numerics are not decided.',
         'design_ref': 'DESIGN.md 4.4, 5 (C03)',
         'note': TRUST,
     },
